@@ -3,7 +3,7 @@
 Spec: spec/Lifetime.tla (+ MCLifetime.tla, TraceLifetime.tla).
 The specification models the host-visible objects (Runtime, Package objects,
 TypedFunc handles) and the resources behind them (a module = machine code +
-script constants; the registered constant and the closure capture of a runtime
+script constants; the registered constant and the captures of the three same-typed registered closures of a runtime
 generation) with the reference counting the design uses, and proves by model
 checking that a resource is released exactly once, exactly when its holder set
 becomes empty (so a call through an existing handle is always valid) and that
@@ -39,17 +39,18 @@ SCENARIOS = ["pkg_dropped_before_handle", "rt_dropped_before_pkg", "rt_dropped_b
              "last_clone_on_other_thread", "call_after_pkg_drop", "call_after_rt_drop",
              "call_after_recompile", "call_after_other_module_released", "last_handle_releases_module",
              "closure_called_as_last_holder", "closure_called_after_pkg_drop", "closure_called_after_rt_drop",
-             "last_closure_releases_module", "closure_dropped_while_others_hold"]
+             "last_closure_releases_module", "closure_dropped_while_others_hold",
+             "same_typed_closures_called_after_rt_drop"]
 
 
 # ------------------------------------------------------------------ representation mapping
 
 def decode(r):
-    """main() returns k * 10^7 + rc * 10^4 + n with rc < 1000, n < 10^4 (harness/src/bin/c11.rs
-    `script`); the specification's result is the triple <<k, rc, n>>."""
+    """main() returns k * 10^11 + rc * 10^8 + na * 10^4 + nb with rc < 1000, na, nb < 10^4
+    (harness/src/bin/c11.rs `script`); the specification's result is <<k, rc, na, nb>>."""
     if not isinstance(r, int):
         return None
-    return [r // 10000000, (r // 10000) % 1000, r % 10000]
+    return [r // 10**11, (r // 10**8) % 1000, (r // 10**4) % 10**4, r % 10**4]
 
 
 def scenarios(ops):
@@ -81,6 +82,8 @@ def scenarios(ops):
                 out.add("call_after_pkg_drop")
             if rt != mods[m]["g"]:
                 out.add("call_after_rt_drop")
+                # every call runs two registered closures of the same Rust type
+                out.add("same_typed_closures_called_after_rt_drop")
             if any(x > m for x in mods):
                 out.add("call_after_recompile")
             if any(x != m for x in released):
@@ -100,6 +103,7 @@ def scenarios(ops):
                 out.add("closure_called_after_pkg_drop")
             if rt != mods[m]["g"]:
                 out.add("closure_called_after_rt_drop")
+                out.add("same_typed_closures_called_after_rt_drop")
             if any(x != m for x in released):
                 out.add("call_after_other_module_released")
         elif o == "drop_closure":
@@ -163,7 +167,7 @@ def check_design(tier, ev):
     within the resource bounds (all histories of any length; closure counter capped)."""
     d = vlib.workdir(PID, "cfg")
     if tier == "quick":
-        plans = [((1, 2, 3), 2, 2, 2, (1,)), ((1, 2), 2, 2, 2, (1, 2))]
+        plans = [((1, 2, 3), 2, 2, 1, (1,)), ((1, 2), 2, 2, 1, (1, 2))]
     else:
         plans = [((1, 2, 3), 2, 2, 3, (1, 2)), ((1, 2), 3, 2, 2, (1,)), ((1, 2), 2, 3, 2, (1, 2))]
     parts = []
@@ -238,7 +242,7 @@ def compare(case, res, verd, flavour="noctx"):
             d = decode(got["res"])
             if d != op["res"]:
                 verd.report({"flavour": flavour, "kind_of_failure": "wrong-result", "op": op["op"]},
-                            "step %d %s: spec says main() returns <<k, rc, n>> = %s, implementation returned %r = %s; history: %s" %
+                            "step %d %s: spec says main() returns <<k, rc, na, nb>> = %s, implementation returned %r = %s; history: %s" %
                             (k, strip(op), op["res"], got["res"], d, [strip(o) for o in ops[:k + 1]]),
                             {"case": case, "flavour": flavour, "step": k, "got": got})
                 return False
@@ -249,7 +253,7 @@ def compare(case, res, verd, flavour="noctx"):
         if live != op["live"]:
             verd.report({"flavour": flavour, "kind_of_failure": "live-count", "op": op["op"],
                          "direction": "early-release" if any(a < b for a, b in zip(live, op["live"])) else "late-release"},
-                        "step %d %s: spec says live instances [script consts v1, v2, registered const, closure capture] = %s, "
+                        "step %d %s: spec says live instances [script consts v1, v2, registered const, capture of closure 1, 2, 3] = %s, "
                         "measured %s; history: %s" % (k, strip(op), op["live"], live, [strip(o) for o in ops[:k + 1]]),
                         {"case": case, "flavour": flavour, "step": k, "got": got})
             return False
@@ -302,7 +306,7 @@ def random_history(rng, nops, nslots=6, ncslots=4):
             if free:
                 cand.append(("get", 3))
         if hnd:
-            if calls < 9000:
+            if calls < 1900:      # counters start 2000 apart and must stay below 10^4
                 cand.append(("call", 5))
                 cand.append(("move", 1))
             cand.append(("drop_handle", 2))
@@ -311,7 +315,7 @@ def random_history(rng, nops, nslots=6, ncslots=4):
             if len(clo) < ncslots:
                 cand.append(("into_func", 1.5))
         if clo:
-            if calls < 9000:
+            if calls < 1900:      # counters start 2000 apart and must stay below 10^4
                 cand.append(("call_closure", 3))
             cand.append(("drop_closure", 1))
         if not cand:
@@ -498,12 +502,14 @@ def run(tier):
     ev.extra["exhaustive_parts"] = parts
     ev.exhaustive = not aborted
     ev.assumptions = [
-        "two script versions and one registered constant / closure stand for all scripts; resources are observed through "
-        "drop-tracked host values (script constants, registered constant, closure capture); the machine code itself is "
+        "two script versions, one registered constant and three registered closures made by one factory (same Rust type, "
+        "own captured counter each) stand for all scripts; resources are observed through drop-tracked host values (script "
+        "constants, registered constant, one capture per registered closure); the machine code itself is "
         "only observed through calls still returning the specified result (a crash of the worker is a violation)",
         "exhaustive up to the stated history length with <= 2 versions, <= 2 packages, <= 3 handles, <= 2 runtimes; "
         "longer histories and larger bounds by seeded walks",
-        "version 2 does not call the closure, so a version-2 package does not keep the closure capture alive",
+        "version 1 calls the registered closures 1 and 2, version 2 calls 2 and 3: a module keeps alive exactly the closures "
+        "its script calls",
         "the closure returned by TypedFunc::into_func is a holder of its own (it owns the handle it was made from)",
     ]
     rc = verd.finish()
